@@ -19,10 +19,14 @@ def run(tier, seed):
     vlib.tlc_expect_violation("MCMux", "mux_prefix_wedge.cfg", "NoWedge")
     vlib.tlc_expect_violation("MCMux", "mux_prefix_stuck.cfg", "NoStuckAtEnd")
     cov = rep.coverage
+    if tier == "thorough":
+        # vacuity: every action of the model is taken in some configuration (TWUnstick exists only before the fix)
+        cov["action_coverage"] = vlib.action_coverage("MCMux", ["mux_C_timed.cfg", "mux_E_timed.cfg", "mux_C_safety.cfg"], ignore=("TWUnstick",))
     n = {"quick": (90, 30, 30), "thorough": (900, 400, 600)}[tier]
     scs = mx.fam_histories(rng, n[0], maxlen=4) + mx.fam_random(rng, n[1]) + mx.tlc_graph_scripts(rng, n[2], cov)
     results, outdir = mx.run_driver(binary, scs)
     c = mx.classify_and_validate(rep, scs, results, outdir, PROP)
+    cov["binding_selftest_mutations_rejected"] = mx.binding_selftest(outdir, scs)
     kinds = {}
     for s in scs:
         for k in s.get("kinds", []):
